@@ -315,6 +315,32 @@ func c11Conjuncts(c *c05File, fn string) []string {
 	return out
 }
 
+// c11ReturnFalseGuards returns the conditions of all top-level `if COND { return false }` statements of
+// fn, in source order (the conditions under which the handler leaves the message in its port).
+func c11ReturnFalseGuards(c *c05File, fn string) []string {
+	var out []string
+	for _, st := range c11Fn(c, fn).Body.List {
+		is, ok := st.(*ast.IfStmt)
+		if !ok || is.Init != nil || is.Else != nil || len(is.Body.List) != 1 || c05Text(is.Body.List[0]) != "return false" {
+			continue
+		}
+		out = append(out, c05Text(is.Cond))
+	}
+	return out
+}
+
+// c11IfConds returns the conditions of every `if` inside fn, in source order (outer before inner).
+func c11IfConds(c *c05File, fn string) []string {
+	var out []string
+	ast.Inspect(c11Fn(c, fn).Body, func(n ast.Node) bool {
+		if is, ok := n.(*ast.IfStmt); ok {
+			out = append(out, c05Text(is.Cond))
+		}
+		return true
+	})
+	return out
+}
+
 // ---------------------------------------------------------------------------------------------
 // (d) stage order
 
@@ -847,6 +873,13 @@ func genC11() {
 	str("ctrlLastAckOp", "`ctrlMiddleware.processCacheFlushRsp`: `m.numCacheACK OP 1` in the guard", cmpN(ctl, "ctrlMiddleware.processCacheFlushRsp", "m.numCacheACK", "1", 1)[0])
 	str("ctrlAllAckedOp", "`ctrlMiddleware.processCacheFlushRsp`: `if m.numCacheACK OP 0 { … answer the flush … }`", cmpN(ctl, "ctrlMiddleware.processCacheFlushRsp", "m.numCacheACK", "0", 1)[0])
 	strs("ctrlLastAckGuard", "`ctrlMiddleware.processCacheFlushRsp`: conjuncts of the first `if … { return false }`", c11Conjuncts(ctl, "ctrlMiddleware.processCacheFlushRsp"))
+	// the three users of numCacheACK (model `MgpuModel/C11CpShare.lean`)
+	strs("cpFlushWaits", "`cpMiddleware.processFlushReq`: every top-level `if COND { return false }`, in order", c11ReturnFalseGuards(cpm, "cpMiddleware.processFlushReq"))
+	strs("cpCopyWaits", "`cpMiddleware.processMemCopyReq`: every top-level `if COND { return false }`, in order", c11ReturnFalseGuards(cpm, "cpMiddleware.processMemCopyReq"))
+	strs("cpLaunchWaits", "`cpMiddleware.processLaunchKernelReq`: every top-level `if COND { return false }`, in order", c11ReturnFalseGuards(cpm, "cpMiddleware.processLaunchKernelReq"))
+	strs("ctrlShootdownWaits", "`ctrlMiddleware.processShootdownCommand`: every top-level `if COND { return false }`, in order", c11ReturnFalseGuards(ctl, "ctrlMiddleware.processShootdownCommand"))
+	strs("cpInvalidateIfs", "`cpMiddleware.invalidateL1CachesBeforeKernel`: the condition of every `if`, in source order", c11IfConds(cpm, "cpMiddleware.invalidateL1CachesBeforeKernel"))
+	strs("ctrlCacheRspIfs", "`ctrlMiddleware.processCacheFlushRsp`: the condition of every `if`, in source order (outer before inner)", c11IfConds(ctl, "ctrlMiddleware.processCacheFlushRsp"))
 
 	// (d) stage order
 	b.WriteString("\n/-! ## (d) stage order and dispatch -/\n\n")
@@ -960,7 +993,7 @@ func genC11() {
 		c     *c05File
 		names []string // nil: every function of the file
 	}
-	b.WriteString("\n/-! ## (f) the hand-transcribed functions -/\n\n/-- (file, function, hash of the normalised source) of every function the models `C11.pieces`, `C11.Dma`,\n    `C11.Cp`, `C11.Mq`, `C11.needFlushing`, `C11.accStep` transcribe by hand -/\ndef modelledFuncs : List (String × String × String) := [\n")
+	b.WriteString("\n/-! ## (f) the hand-transcribed functions -/\n\n/-- (file, function, hash of the normalised source) of every function the models `C11.pieces`, `C11.Dma`,\n    `C11.Cp`, `C11.CpS`, `C11.Mq`, `C11.needFlushing`, `C11.accStep` transcribe by hand -/\ndef modelledFuncs : List (String × String × String) := [\n")
 	var rows []string
 	for _, h := range []hf{
 		{mc, nil},
@@ -970,9 +1003,14 @@ func genC11() {
 		{dma, nil},
 		{cpm, []string{"cpMiddleware.Tick", "cpMiddleware.Handle", "cpMiddleware.HandleInternal", "cpMiddleware.processRspFromDMAs", "cpMiddleware.processMemCopyRsp",
 			"cpMiddleware.findAndRemoveOriginalMemCopyRequest", "cpMiddleware.processFlushReq", "cpMiddleware.processMemCopyReq",
-			"cpMiddleware.cloneMemCopyH2DReq", "cpMiddleware.cloneMemCopyD2HReq", "cpMiddleware.flushCache"}},
+			"cpMiddleware.cloneMemCopyH2DReq", "cpMiddleware.cloneMemCopyD2HReq", "cpMiddleware.flushCache",
+			"cpMiddleware.processLaunchKernelReq", "cpMiddleware.invalidateL1CachesBeforeKernel", "cpMiddleware.invalidateCache",
+			"cpMiddleware.findAvailableDispatcher"}},
 		{ctl, []string{"ctrlMiddleware.Tick", "ctrlMiddleware.HandleInternal", "ctrlMiddleware.processRspFromCaches", "ctrlMiddleware.processCacheFlushRsp",
-			"ctrlMiddleware.processRegularCacheFlush", "ctrlMiddleware.processCacheFlushCausedByTLBShootdown"}},
+			"ctrlMiddleware.processRegularCacheFlush", "ctrlMiddleware.processCacheFlushCausedByTLBShootdown",
+			"ctrlMiddleware.Handle", "ctrlMiddleware.processShootdownCommand", "ctrlMiddleware.processRspFromCUs", "ctrlMiddleware.processRspFromATs",
+			"ctrlMiddleware.processRspFromTLBs", "ctrlMiddleware.processCUPipelineFlushRsp", "ctrlMiddleware.processAddressTranslatorFlushRsp",
+			"ctrlMiddleware.flushAndResetL1Cache", "ctrlMiddleware.flushAndResetL2Cache", "ctrlMiddleware.processTLBFlushRsp"}},
 		{cpc, []string{"CommandProcessor.Tick", "CommandProcessor.tickDispatchers", "CommandProcessor.processReqFromDriver", "CommandProcessor.processRspFromInternal"}},
 		{acc, []string{"storageAccessorImpl.Read", "storageAccessorImpl.Write"}},
 	} {
